@@ -3,8 +3,13 @@
 import json, os, glob, re
 ROOT = os.path.dirname(os.path.dirname(os.path.abspath(__file__)))
 rows = []
+harmless = []
 for mf in sorted(glob.glob(os.path.join(ROOT, "seeded", "*", "meta.json"))):
     m = json.load(open(mf))
+    if m.get("kind", "").startswith("harmless"):
+        harmless.append((m["id"], m["property"], "yes" if m.get("confirmed") else "NO", m.get("without_pins", "?"),
+                         m.get("full_check_verdict", "?"), m.get("summary", "")[:200]))
+        continue
     rd = m.get("readme_excerpt", "")
     # first sentence describing the change, if the README has a per-change heading
     k = m["id"].split("-m")[1]
@@ -23,4 +28,12 @@ with open(os.path.join(ROOT, "seeded", "RESULTS.md"), "w") as f:
             "| id | property | confirmed | caught by quick check | replay | check strengthened because of it | change |\n|---|---|---|---|---|---|---|\n")
     for r in rows:
         f.write("| " + " | ".join(r) + " |\n")
-print(len(rows), "seeds")
+    f.write("\n# Behaviour-preserving changes (false-alarm side)\n\n"
+            "Written by the same kind of sub-agent, with a differential test against the original code that passes with and without the\n"
+            "change (lib/harmcheck). `without pins` = verdict of streams + oracles + proofs alone (VERIF_NOPINS=1): `silent` (exit 0),\n"
+            "`tie-broken` (a translator or proof no longer applies: VIOLATION ... no-failing-input-found) or `CONCRETE` (a false alarm\n"
+            "with a replay: a defect of the machinery). `full check`: the verdict with the source pins.\n\n"
+            "| id | property | equivalent (demo passes both ways, suite passes) | without pins | full check | change |\n|---|---|---|---|---|---|\n")
+    for r in harmless:
+        f.write("| " + " | ".join(r) + " |\n")
+print(len(rows), "seeds", len(harmless), "harmless")
